@@ -75,16 +75,24 @@ func c17Rotation(t *testing.T, run *Run) {
 		pv := []uint8{1, 2, 5}[rng.Intn(3)]
 		label := []string{"", "rot"}[rng.Intn(2)]
 		negative := ci%3 == 2
+		withSecret := ci%2 == 1
 		var steps []string
 		var failure string
 		var negSeen bool
 		err := Bubble(t, func() {
 			c := NewCluster(run.Seed()*1000 + int64(ci))
 			defer c.Drain()
+			// the handles the application keeps (it built the keyrings itself and rotates through them)
+			var rings []*memberlist.Keyring
 			for i := 0; i < n; i++ {
 				ring, _ := memberlist.NewKeyring(nil, kOld)
+				rings = append(rings, ring)
+				both := withSecret && i%2 == 0
 				nd, err := c.Add(NodeSpec{Name: fmt.Sprintf("n%d", i), Mutate: func(cf *memberlist.Config) {
 					cf.Keyring = ring
+					if both {
+						cf.SecretKey = kOld // keyring and secret key both given: the key is (already) the ring's primary
+					}
 					cf.ProtocolVersion = pv
 					cf.Label = label
 					cf.PushPullInterval = 0
@@ -121,8 +129,8 @@ func c17Rotation(t *testing.T, run *Run) {
 				// out of order: one node starts using the new key before another installed it
 				order := rng.Perm(n)
 				a, b := c.Nodes[order[0]], c.Nodes[order[1]]
-				_ = a.Conf.Keyring.AddKey(kNew)
-				_ = a.Conf.Keyring.UseKey(kNew)
+				_ = rings[order[0]].AddKey(kNew)
+				_ = rings[order[0]].UseKey(kNew)
 				f, _ := probeAllPairs(c, "neg")
 				for _, x := range f {
 					if x == a.Name+">"+b.Name+"/packet" || x == a.Name+">"+b.Name+"/stream" {
@@ -135,7 +143,7 @@ func c17Rotation(t *testing.T, run *Run) {
 			for pi, ph := range phases {
 				for si, idx := range rng.Perm(n) {
 					nd := c.Nodes[idx]
-					if err := ph.do(nd.Conf.Keyring); err != nil {
+					if err := ph.do(rings[idx]); err != nil {
 						failure = fmt.Sprintf("%s on %s: %v", ph.name, nd.Name, err)
 						return
 					}
@@ -143,7 +151,7 @@ func c17Rotation(t *testing.T, run *Run) {
 					steps = append(steps, step)
 					f, sent := probeAllPairs(c, fmt.Sprintf("%d.%d", pi, si))
 					run.Count("rotation_probes", int64(sent))
-					run.Cell("rotation", ph.name, fmt.Sprintf("step%d/%d", si+1, n), fmt.Sprintf("pv%d", pv), "label="+label)
+					run.Cell("rotation", ph.name, fmt.Sprintf("step%d/%d", si+1, n), fmt.Sprintf("pv%d", pv), "label="+label, fmt.Sprintf("secretkey-too=%v", withSecret))
 					if len(f) > 0 {
 						failure = fmt.Sprintf("after step %s (steps so far %v) these pairs could not exchange a message: %v", step, steps, f)
 						return
